@@ -50,6 +50,7 @@ func main() {
 	noEvidence := flag.Bool("no-evidence", false, "do not write evidence files (used by the self-test on scratch copies)")
 	expect := flag.String("expect", "", "self-test: comma separated rule[:construct-substring] that must fire; exit 0 iff all fire")
 	only := flag.String("only", "", "run only this rule of the property (replay)")
+	goarch := flag.String("goarch", "", "load the repository for this GOARCH (thorough tier re-checks under 386)")
 	dumpfn := flag.String("dumpfn", "", "debug: print the symbolic paths of a function (Recv.Name)")
 	dumphnd := flag.String("dumphnd", "", "debug: print the handler summary of an opcode constant")
 	flag.Parse()
@@ -117,7 +118,11 @@ func main() {
 	violPath := filepath.Join(*verif, "evidence", "violations", pd.ID+".json")
 	evPath := filepath.Join(*verif, "evidence", pd.ID+".json")
 
-	ctx, err := loadRepo(*repo, nil)
+	var loadEnv []string
+	if *goarch != "" {
+		loadEnv = append(loadEnv, "GOARCH="+*goarch)
+	}
+	ctx, err := loadRepo(*repo, loadEnv)
 	var rules []*R
 	if err != nil {
 		r := newR("LOAD", 0)
